@@ -1,6 +1,8 @@
 package event
 
 import (
+	"sync/atomic"
+
 	"github.com/iotaledger/hive.go/runtime/options"
 	"github.com/iotaledger/hive.go/runtime/workerpool"
 )
@@ -13,6 +15,10 @@ type Hook[TriggerFunc any] struct {
 
 	// preTriggerFunc is a function that is called before each Hook is executed.
 	preTriggerFunc TriggerFunc
+
+	// unhooked is set by Unhook, so that a Trigger that is already iterating over the hooks does not invoke the
+	// callback anymore (a removed entry is still reachable through the next-pointer of another removed entry).
+	unhooked atomic.Bool
 
 	*triggerSettings
 }
@@ -45,5 +51,6 @@ func (h *Hook[TriggerFunc]) WorkerPool() *workerpool.WorkerPool {
 
 // Unhook removes the callback from the event.
 func (h *Hook[TriggerFunc]) Unhook() {
+	h.unhooked.Store(true)
 	h.event.hooks.Delete(h.id)
 }
